@@ -191,7 +191,10 @@ const crossRounds = 3000
 
 // cross runs a.m1(b) on one goroutine against b.m2(a) on another, round by
 // round (a spin barrier before each call, so that the two calls of a round
-// begin within nanoseconds of each other), under the watchdog.
+// begin within nanoseconds of each other), under the watchdog.  A side stops
+// after crossRounds calls or after a quarter of the watchdog period, whichever
+// comes first: on a stalled machine the sequence gets shorter, it never runs
+// into the watchdog by its length.
 func cross(tn, m1, m2 string) (string, error) {
 	a, err := newPopulated(tn)
 	if err != nil {
@@ -211,11 +214,15 @@ func cross(tn, m1, m2 string) (string, error) {
 	}
 	round := make([]int32, crossRounds)
 	res := make(chan string, 2)
+	began := time.Now()
 	for _, call := range []func(){c1, c2} {
 		call := call
 		go func() {
 			out := "returned"
 			for i := 0; i < crossRounds; i++ {
+				if i%64 == 63 && time.Since(began) > watchdog/4 {
+					break
+				}
 				atomic.AddInt32(&round[i], 1)
 				for spins := 0; atomic.LoadInt32(&round[i]) < 2 && spins < 1<<16; spins++ {
 					if spins%256 == 255 {
